@@ -900,6 +900,35 @@ def rule_badfilter(program, ctx, prop=P, rid="C01.badfilter"):
             ctx.ok(rid, h, "an unusable filter is reduced to `false`")
 
 
+def rule_allfilters(program, ctx, prop=P, rid="C01.allfilters"):
+    ctx.rule(
+        rid,
+        "internal queries keep all their filters: DBStorage.run_single_query validates every given filter and fails as a whole when one is invalid - a list that silently "
+        "loses members can end up empty, and build_query writes no WHERE clause for an empty list: the 'query' returns every stored event (deny lists filled from unrelated "
+        "events, purge / cleanup commands acting on the whole table)",
+        floor=1,
+    )
+    fn = program.func("nostr_relay.storage.db:DBStorage.run_single_query")
+    calls = [c for c in ast.walk(fn) if isinstance(c, ast.Call) and call_name(c).endswith("model_validate")]
+    if not calls:
+        ctx.bad(finding_func(prop, rid, fn, "run_single_query no longer validates its filters through NostrQuery.model_validate", text="def run_single_query(...) :: validate"))
+    for c in calls:
+        comp = next((a for a in ancestors(c) if isinstance(a, (ast.ListComp, ast.GeneratorExp))), None)
+        if comp is not None and any(g.ifs for g in comp.generators):
+            ctx.bad(finding_at(prop, rid, c, "filters are dropped by a comprehension condition before validation"))
+            continue
+        sw = [h for a in ancestors(c) if isinstance(a, ast.Try) and any(c is x for s_ in a.body for x in ast.walk(s_)) for h in a.handlers
+              if not any(isinstance(x, ast.Raise) for x in ast.walk(h))]
+        if sw:
+            ctx.bad(finding_at(prop, rid, sw[0], "an invalid filter is skipped and the query runs with the remaining ones: when none remains the statement has no WHERE clause and matches "
+                               "every stored event"))
+        else:
+            ctx.ok(rid, c, "every filter is validated; an invalid one fails the whole query")
+    # and the empty list itself must not reach the statement builder as 'no condition'
+    bq = program.func("nostr_relay.storage.db:Subscription.build_query")
+    ctx.info(rid, bq, "build_query writes no WHERE for an empty filter list (reached only through run_single_query; subscribe refuses an empty list)") if hasattr(ctx, "info") else None
+
+
 def run(program, ctx):
     from ..lib import rule_awaited
 
@@ -922,6 +951,7 @@ def run(program, ctx):
     rule_modelconfig(program, ctx)
     rule_badfilter(program, ctx)
     rule_hex_total(program, ctx)
+    rule_allfilters(program, ctx)
     from . import c04, c16
 
     # the live matcher's authors/delegation clause: has_tag's first result alone says nothing about *which* delegator
